@@ -79,6 +79,11 @@ def systematic():
                                 Variant("Second", shapes[1], [], [ser(y)] + ([aci(True, explicit=True)] if fb else []))], metas=[EM("phf")])
                 ov.overlap_family = True       # spellings overlap on purpose: declaration order decides, with and without the map
                 items.append(ov)
+    # options meant for OTHER derives (const_into_str, prefix) on the enum do not make anything case-insensitive
+    for extra in ([EM("cis")], [EM("prefix", "p/")], [EM("cis"), EM("sall", "snake_case")]):
+        vs = [Variant("Red", "unit"), Variant("DarkGreen", "unit", [], [aci(True, explicit=False)]), Variant("Blue", "unit", [], [ser("blue"), aci(False)]),
+              Variant("Mixed", "unit", [], [ser("MiXed"), ser("other")])]
+        items.append(Item("E", vs, metas=list(extra)))
     # MANY spellings on one variant (17, 20, 33): the variant's own flag decides, whatever the enum says
     for eflag in (False, True):
         for nsp in (17, 20, 33):
